@@ -67,7 +67,7 @@ class C10(Prop):
         return case
 
     def cases(self, rng: random.Random, tier: str) -> Iterable[dict]:
-        forced = ["product-order"] * 3 + ["continue-fail"] * 4 + ["raise-multi"] * 2      # whatever the seed
+        forced = ["product-order"] * 3 + ["continue-fail"] * 4 + ["raise-multi"] * 2 + ["branch-renamed"] * 4      # whatever the seed
         for _ in range(4):
             yield self._map_case(rng, force="raise-multi", bounded=True)
         # whatever the seed: items that compare EQUAL without being the same value (1 / True, 0 / False) — each is its own combination and
@@ -93,7 +93,7 @@ class C10(Prop):
                    "runner": runner, "k": rng.choice([None, 2]), "seed": rng.randint(0, 10**6)}
         while True:
             if forced or rng.random() < 0.5:
-                c = gen.gen_map_node(rng, force=forced.pop() if forced else rng.choice([None, None, None, "raise-multi", "continue-fail", "product-order"]))
+                c = gen.gen_map_node(rng, force=forced.pop() if forced else rng.choice([None, None, None, "raise-multi", "continue-fail", "product-order", "branch-renamed"]))
                 yield {"kind": "node", "program": c["program"], "values": c["values"], "cfg": c.get("cfg", {}),
                        "runner": rng.choice(["sync", "async"]), "k": rng.choice([None, 1, 2, 3]), "seed": rng.randint(0, 10**6)}
             else:
